@@ -9,4 +9,4 @@ Extraction "circuit_model.ml" append extend append_circuit insert insert_circuit
   renumber_qudits clear c_add c_iadd c_mul c_imul iter_ops riter_ops fwd_cycle params_of reduce
   points first_on last_on front rear dag_entry nexts prevs num_operations gate_counts graph_info
   active_qudits depth dag_iter
-  fold straighten check_region.
+  fold straighten check_region fold_x straighten_x.
